@@ -380,7 +380,7 @@ func init() {
 		Level: "exploration",
 		Rule: "schemas from the type-graph, scalar rule-set and all-features generators, in the canonical style and in random meaning-preserving spellings; the expected AST is built from the abstract model and compared " +
 			"node by node and rule by rule (key, shortcut flag, token type, value, schema type, comment, rule names / token types / values / order / nested items / generated-vs-manual source). " +
-			"Non-trivial = distinct accepted schema text.",
+			"Non-trivial = distinct accepted schema text. A schema refused in one legal spelling and accepted in another is a violation (ast-spelling); every second schema is built from a []byte overwritten after GetAST; counts up to 2^64-1.",
 		Assumptions: []string{
 			"the reference AST builder was calibrated once against the pinned behaviour for value spellings the statement leaves open (rule values keep their written spelling, strings are decoded, a single allOf name is a reference node, generated or-items are string tokens)",
 		},
